@@ -64,6 +64,19 @@ pub fn sx1272(chip: &C127, tx_boost: bool, rx_boost: bool) -> (R1272, Iv) {
     (Sx127x::new(Spi::new(chip.clone()), iv.clone(), cfg), iv)
 }
 
+/// LR1110 board options as a bit set: bit 0 rx_boost, bit 1 DC-DC, bit 2 TCXO, bit 3 high-power PA, bit 4 DIOs as RF switch
+pub fn lr1110_board(chip: &CLr, board: u8) -> (RLr, Iv) {
+    let iv = Iv::new();
+    let cfg = lr1110::Config {
+        pa_selection: if board & 8 != 0 { lr1110::PaSelection::Hp } else { lr1110::PaSelection::Lp },
+        dio_as_rf_switch: if board & 16 != 0 { Some(Default::default()) } else { None },
+        tcxo_ctrl: if board & 4 != 0 { Some(lr1110::TcxoCtrlVoltage::Ctrl1V8) } else { None },
+        use_dcdc: board & 2 != 0,
+        rx_boost: board & 1 != 0,
+    };
+    (Lr1110::new(Spi::new(chip.clone()), iv.clone(), cfg), iv)
+}
+
 pub fn lr1110(chip: &CLr) -> (RLr, Iv) {
     let iv = Iv::new();
     let cfg = lr1110::Config { pa_selection: lr1110::PaSelection::Lp, dio_as_rf_switch: None, tcxo_ctrl: None, use_dcdc: false, rx_boost: false };
